@@ -8,6 +8,7 @@ import glob
 import hashlib
 import json
 import os
+import re
 import shutil
 import subprocess
 import sys
@@ -196,8 +197,17 @@ class Crate:
             return "?"
         return "%s:%d" % (self.strs[sp[0]], sp[1])
 
+    _LT = re.compile(r"(?<=[<&( ,])'[a-z_][a-z0-9_]*(?=[>, ])")
+
     def fn(self, path):
         fs = self._by_path.get(path)
+        if not fs and "'" in path:
+            # lifetime parameter names are not identity (`Edge::<'a>::to_many` = `Edge::<'schema>::to_many`)
+            if not hasattr(self, "_by_norm"):
+                self._by_norm = {}
+                for f in self.fns:
+                    self._by_norm.setdefault(self._LT.sub("'_", f["path"]), []).append(f)
+            fs = self._by_norm.get(self._LT.sub("'_", path))
         if not fs:
             return None
         return fs[0]
